@@ -124,6 +124,14 @@ CANARIES = [
     ("fields-manual-eq", AX, None, None, ["C20"]),
     ("pure-write-through-shared", AL, None, None, ["C02"]),
     ("nondet-hashset", AM, None, None, ["C15", "C17"]),
+    # clauses added in round 11
+    ("size-shortcut-semicomplete-le", AW, "        self.size() >= order * (order - 1) / 2\n            && (0..order).all(|u| {",
+     "        self.size() > order * (order - 1) / 2\n            && (0..order).all(|u| {", ["C12"]),
+    ("merge-cut-points-floor-stride", AM, "            partitions.push(k * order / t);", "            partitions.push(k * (order / t));", ["C11", "C17"]),
+    ("from-early-trivial", AL, "                assert!(order > 0, \"a digraph has at least one vertex\");\n\n                let mut h = Self::empty(order);\n\n                for (u, v) in digraph.arcs() {\n                    assert_ne!",
+     "                assert!(order > 0, \"a digraph has at least one vertex\");\n\n                if digraph.size() == 0 {\n                    return Self::trivial();\n                }\n\n                let mut h = Self::empty(order);\n\n                for (u, v) in digraph.arcs() {\n                    assert_ne!", ["C16"]),
+    ("search-by-exit-before-predicate", "src/algo/predecessor_tree.rs", "        while let Some(&v) = self.pred.get(s) {\n            if is_target(&s, &v) {",
+     "        while let Some(&v) = self.pred.get(s) {\n            if v == Some(s) {\n                break;\n            }\n\n            if is_target(&s, &v) {", ["C19"]),
 ]
 
 
